@@ -254,7 +254,7 @@ def _lookup_fields(A):
     return fields
 
 
-@rule('R03.c', ('C03', 'C01'), 'a loop frame shares every looked-up field with its '
+@rule('R03.c', ('C03', 'C01', 'C04'), 'a loop frame shares every looked-up field with its '
       'parent frame', floor=4,
       decides='assigning to a parameter inside a loop never changes a global; '
               'a parameter hides a global for the whole body')
